@@ -670,13 +670,15 @@ def generate(seed, tier):
             # not after a request whose name has extra parts (Service: refused; others: known finding, stray object)
             if any(l.startswith('cw_create') and bytes.fromhex(dict(t.split('=', 1) for t in l.split()[1:] if '=' in t)['name']).count(b'!') >= 2 + (0 if ' type=Service ' in l else 1) for l in c['lines']):
                 continue
+            # only the _api package is reloaded: not in cases that create statically configured objects (a static object
+            # would keep pointing at the old instance of a run-time parent; the harness answers res=skipped anyway).
+            if any(l.startswith('cw_static') for l in c['lines']):
+                continue
             # once before the trailing deletes (objects are live), once at the very end
             i = len(c['lines'])
             while i > 0 and c['lines'][i - 1].startswith('cw_delete'):
                 i -= 1
-            # (the emulation reloads only the _api package: statically configured objects keep pointing at the OLD instances
-            #  of their run-time parents, so with static objects in the case the reload is only done at the end)
-            if i < len(c['lines']) and not any(l.startswith('cw_static') for l in c['lines']):
+            if i < len(c['lines']):
                 c['lines'].insert(i, 'cw_restart')
             c['lines'].append('cw_restart')
     return cases
